@@ -466,7 +466,7 @@ import pint
 path, cache = sys.argv[1], sys.argv[2]
 kw = {} if cache == "-" else {"cache_folder": cache}
 ureg = pint.UnitRegistry(path, **kw)
-out = {}
+out = {"names": sorted(ureg)}  # asked first: the probes below memoise prefixed names themselves
 for probe in ["m", "s", "knot", "acre", "lb", "m ** 2", "ft / minute", "hand"]:
     out["compatible(%s)" % probe] = sorted(str(u) for u in ureg.get_compatible_units(probe))
 for probe in ["knot", "acre", "yd", "walk", "kkm", "inches"]:
@@ -518,6 +518,12 @@ def h_cache_across_processes(eng):
         eng.prove("error" not in ref and len(ref.get("compatible(m)", [])) >= 2, "cache-across-processes:reference-load-works")
         for name, got in (("cold", cold), ("warm", warm), ("warm-again", warm2)):
             for k in sorted(ref):
+                if k == "names" and got.get(k) != ref[k] and set(got.get(k, ())) < set(ref[k]):
+                    # known finding K14: prefixed names memoised while a cold build walks the
+                    # definitions ('kkm' here, 'kilometer' in the bundled file) are listed by
+                    # iter(ureg)/dir(ureg) after an uncached or cold load but not after a warm one
+                    eng.fail(f"cache-across-processes:{name}:listed-names-differ-from-uncached-load", stop=False)
+                    continue
                 eng.prove(got.get(k) == ref[k], f"cache-across-processes:{name}:{k}")
     finally:
         shutil.rmtree(tmp, ignore_errors=True)
